@@ -22,9 +22,11 @@ import (
 	"path/filepath"
 	"runtime/debug"
 	"sort"
+	"strconv"
 	"strings"
 	"sync"
 	"testing"
+	"time"
 
 	"pgregory.net/rapid"
 )
@@ -90,6 +92,10 @@ type Spec[C any] struct {
 	// Enumerate, when set, yields a finite family of cases that is run exhaustively before the
 	// generated ones (e.g. all permutations of up to n keys). emit returns false to stop.
 	Enumerate func(emit func(C) bool)
+	// Shrink, when set, proposes structurally simpler variants of a failing case (fewer sessions, fewer
+	// steps). After rapid has finished its own minimisation the runner applies them greedily (delta
+	// debugging on the case value) while the same fingerprint keeps failing.
+	Shrink func(c C) []C
 }
 
 type stats struct {
@@ -271,6 +277,75 @@ func (r *runner[C]) exec(c C, count bool) *Violation {
 	return nil
 }
 
+// structuralShrink greedily applies spec.Shrink candidates to the last failing case.
+func (r *runner[C]) structuralShrink() {
+	if r.spec.Shrink == nil || r.last == nil || os.Getenv("VERIF_REPLAY") != "" {
+		return
+	}
+	budget := 60 * time.Second
+	if v := os.Getenv("VERIF_SHRINK_S"); v != "" {
+		if n, err := strconv.Atoi(v); err == nil {
+			budget = time.Duration(n) * time.Second
+		}
+	}
+	deadline := time.Now().Add(budget)
+	var best C
+	if err := json.Unmarshal(r.last.Case, &best); err != nil {
+		return
+	}
+	fp := r.last.Fingerprint
+	bestV := *r.last
+	improved := true
+	for improved && time.Now().Before(deadline) {
+		improved = false
+		for _, cand := range r.spec.Shrink(best) {
+			if time.Now().After(deadline) {
+				break
+			}
+			cj, err := json.Marshal(cand)
+			if err != nil || len(cj) >= len(bestV.Case) {
+				continue
+			}
+			if r.spec.MayDie && r.out != "" {
+				_ = os.WriteFile(filepath.Join(r.out, "inflight.json"), cj, 0o644)
+			}
+			v := safeProp(r.spec.Prop, cand, &Ctx{})
+			if r.spec.MayDie && r.out != "" {
+				_ = os.Remove(filepath.Join(r.out, "inflight.json"))
+			}
+			if v != nil && v.Fingerprint == fp {
+				best = cand
+				bestV = violationFile{Property: r.spec.ID, Fingerprint: v.Fingerprint, Msg: v.Msg, Case: cj}
+				improved = true
+				break
+			}
+		}
+	}
+	r.mu.Lock()
+	r.last = &bestV
+	r.mu.Unlock()
+}
+
+// ShrinkList returns variants of xs with chunks removed: halves, quarters, ..., single elements.
+func ShrinkList[T any](xs []T) [][]T {
+	var out [][]T
+	n := len(xs)
+	for chunk := n; chunk >= 1; chunk /= 2 {
+		for start := 0; start < n; start += chunk {
+			end := start + chunk
+			if end > n {
+				end = n
+			}
+			v := append(append([]T{}, xs[:start]...), xs[end:]...)
+			out = append(out, v)
+		}
+		if chunk == 1 {
+			break
+		}
+	}
+	return out
+}
+
 func (r *runner[C]) flush() {
 	if r.out == "" {
 		return
@@ -295,7 +370,10 @@ func (r *runner[C]) flush() {
 func Run[C any](t *testing.T, spec Spec[C]) {
 	r := &runner[C]{spec: spec, nt: map[[8]byte]struct{}{}, known: loadKnown(spec.ID), out: os.Getenv("VERIF_OUT")}
 	r.st = stats{Property: spec.ID, Labels: map[string]int{}, ExcludedKnown: map[string]int{}}
-	defer r.flush()
+	defer func() {
+		r.structuralShrink()
+		r.flush()
+	}()
 
 	// 1. replay mode: exactly one case, no library.
 	if p := os.Getenv("VERIF_REPLAY"); p != "" {
